@@ -116,55 +116,58 @@ def rule_drop(ctx, prop):
         fb = prog.fn("stylua_lib", "formatters::block::format_block")
         if rep.anchor(fb is not None, "format_block", cfg):
             n = 0
-            for bi in range(len(fb.blocks)):
-                if fb.blocks[bi]["cleanup"]:
-                    continue
-                si = switch_info(fb, bi)
-                if not si or not si["enum"].endswith("option::Option") or si["targets"].get("Some") is None:
-                    continue
-                pl = si["place"]
-                base_ty = fb.local_ty(pl["l"])
-                if "Option<full_moon::tokenizer::TokenReference>" not in base_ty:
-                    continue
-                sb = si["targets"]["Some"]
-                region = [b for b in fb.reach_from(sb) if fb.dominates(sb, b)]
-                kept = any(fb.blocks[b]["term"]["k"] == "call" and
-                           callee(fb.blocks[b]["term"]) == "formatters::general::format_symbol" for b in region)
-                if kept:
-                    continue
-                n += 1
-                reads = set()
-                members = [(fb, region)]
-                for b in region:
-                    for s in fb.blocks[b]["st"]:
-                        if s["k"] == "assign" and s["rv"]["k"] == "agg" and "closure" in s["rv"]:
-                            g = prog.fn("stylua_lib", s["rv"]["closure"])
-                            if g:
-                                members.append((g, range(len(g.blocks))))
-                # a local helper that receives the semicolon token and reads its trivia itself
-                for b in region:
-                    t = fb.blocks[b]["term"]
-                    if t["k"] != "call":
-                        continue
-                    h = prog.fn("stylua_lib", callee(t))
-                    if h is None or h is fb:
-                        continue
-                    for ai, a in enumerate(t["args"]):
-                        if is_const(a) or "TokenReference" not in fb.local_ty(op_place(a)["l"]):
-                            continue
-                        hm = [h] + [x for x in prog.fns("stylua_lib") if x.path.startswith(h.path + "::{closure")]
-                        for hh in hm:
-                            members.append((hh, range(len(hh.blocks))))
-                for g, blocks in members:
-                    for b in blocks:
-                        t = g.blocks[b]["term"]
-                        if t["k"] == "call" and READ.search(callee(t)) and "TokenReference::" in callee(t):
-                            reads |= _sides(callee(t))
-                ok = reads >= {"leading", "trailing"}
-                rep.inst(f"{fb.key} dropped-semicolon hands over trivia #{n}", {"reads": sorted(reads)}, cfg, ok=ok)
-                if not ok:
-                    rep.violation(f"{fb.key} dropped-semicolon undischarged={sorted({'leading', 'trailing'} - reads)}",
-                                  "a semicolon is removed without reading its leading/trailing trivia: comments attached "
-                                  "to it are deleted", fb.loc(fb.blocks[bi]["term"]["sp"]), cfg)
+            fb0 = fb
+            for fb in [fb0] + [x for x in prog.fns("stylua_lib") if x.path.startswith(fb0.path + "::{closure")]:
+              for bi in range(len(fb.blocks)):
+                  if fb.blocks[bi]["cleanup"]:
+                      continue
+                  si = switch_info(fb, bi)
+                  if not si or not si["enum"].endswith("option::Option") or si["targets"].get("Some") is None:
+                      continue
+                  pl = si["place"]
+                  base_ty = fb.local_ty(pl["l"])
+                  if "Option<full_moon::tokenizer::TokenReference>" not in base_ty:
+                      continue
+                  sb = si["targets"]["Some"]
+                  region = [b for b in fb.reach_from(sb) if fb.dominates(sb, b)]
+                  kept = any(fb.blocks[b]["term"]["k"] == "call" and
+                             callee(fb.blocks[b]["term"]) == "formatters::general::format_symbol" for b in region)
+                  if kept:
+                      continue
+                  n += 1
+                  reads = set()
+                  members = [(fb, region)]
+                  for b in region:
+                      for s in fb.blocks[b]["st"]:
+                          if s["k"] == "assign" and s["rv"]["k"] == "agg" and "closure" in s["rv"]:
+                              g = prog.fn("stylua_lib", s["rv"]["closure"])
+                              if g:
+                                  members.append((g, range(len(g.blocks))))
+                  # a local helper that receives the semicolon token and reads its trivia itself
+                  for b in region:
+                      t = fb.blocks[b]["term"]
+                      if t["k"] != "call":
+                          continue
+                      h = prog.fn("stylua_lib", callee(t))
+                      if h is None or h is fb:
+                          continue
+                      for ai, a in enumerate(t["args"]):
+                          if is_const(a) or "TokenReference" not in fb.local_ty(op_place(a)["l"]):
+                              continue
+                          hm = [h] + [x for x in prog.fns("stylua_lib") if x.path.startswith(h.path + "::{closure")]
+                          for hh in hm:
+                              members.append((hh, range(len(hh.blocks))))
+                  for g, blocks in members:
+                      for b in blocks:
+                          t = g.blocks[b]["term"]
+                          if t["k"] == "call" and READ.search(callee(t)) and "TokenReference::" in callee(t):
+                              reads |= _sides(callee(t))
+                  ok = reads >= {"leading", "trailing"}
+                  rep.inst(f"{fb.key} dropped-semicolon hands over trivia #{n}", {"reads": sorted(reads)}, cfg, ok=ok)
+                  if not ok:
+                      rep.violation(f"{fb.key} dropped-semicolon undischarged={sorted({'leading', 'trailing'} - reads)}",
+                                    "a semicolon is removed without reading its leading/trailing trivia: comments attached "
+                                    "to it are deleted", fb.loc(fb.blocks[bi]["term"]["sp"]), cfg)
+            fb = fb0
             rep.floor("semicolon-dropping regions in format_block", n, 2, cfg)
     return rep
